@@ -30,7 +30,7 @@ class Harness:
         self.mod = mod            # harness file stem in /verif/kani, e.g. heap_c33
         self.name = name          # fn name
         self.cost = cost          # estimated seconds
-        self.timeout = timeout or max(240, 6 * cost)
+        self.timeout = timeout or max(900, 10 * cost)
         self.tiers = tiers
         self.desc = desc
         self.bounds = bounds
